@@ -89,6 +89,13 @@ def opDEC (args obs : List String) : Option DecOut :=
         -- a trailing alloc=<bytes> comes from runs in a child process (count-suspect inputs)
         let allocTok := used.find? (·.startsWith "alloc=")
         let used := used.filter (fun t => ¬ t.startsWith "alloc=")
+        -- "aliased": the decoded value changed when the caller overwrote the input slice / the reader took in more data
+        let fAlias := if used.contains "aliased" || fresh.contains "aliased" then
+            ["C07 the decoded message changes when the memory it was decoded from is reused (it aliases the input)",
+             "C01 the decoded value does not stay equal to the original: it aliases the input buffer",
+             "C12 what a decoded message reports (chunk id included) changes later: it aliases the input"] else []
+        let used := used.filter (· ≠ "aliased")
+        let fresh := fresh.filter (· ≠ "aliased")
         if used == ["skip"] then some { corr := none, fails := [], branch := s!"dec.{ty}.{ps}.{cls}.skip" } else
         let go := " ".intercalate used
         let fAlloc := match allocTok with
@@ -128,7 +135,7 @@ def opDEC (args obs : List String) : Option DecOut :=
           -- `Reader.Skip` gives up on those (DESIGN 0.5); outside the modelled domain
           else if p == .stream ∧ b.length > 4000 ∧ hasExt32Tok (b.length + 1) b then none
           else some s!"model=[{m}] go=[{go}]"
-        some { corr := corr, fails := f10 ++ f13 ++ f18 ++ fAlloc,
+        some { corr := corr, fails := f10 ++ f13 ++ f18 ++ fAlloc ++ fAlias,
                branch := s!"dec.{ty}.{ps}.{cls}.{if rv = "F" then "F" else "U"}.{kind}" }
     | _, _ => none
   | _ => none
@@ -409,7 +416,8 @@ def countValues : Nat → Bytes → Option Nat
 /-- constructor / packer histories -/
 def opHIST (op : String) (args obs : List String) : Option DecOut :=
   let (main, chg, inchg) := splitHist obs
-  let f07 := (if chg == 0 then [] else [s!"C07 {chg} previously returned value(s) changed"]) ++
+  let f07 := (if chg == 0 then [] else [s!"C07 {chg} previously returned value(s) changed",
+                s!"C03 {chg} message(s) / stream(s) built earlier no longer carry their entries after a later call"]) ++
              (if inchg == 0 then [] else [s!"C07 {inchg} caller-supplied argument(s) modified"])
   let mk (corr : Option String) (fails : List String) (br : String) : Option DecOut :=
     some { corr := corr, fails := fails ++ f07, branch := s!"hist.{op}.{br}" }
@@ -433,7 +441,8 @@ def opHIST (op : String) (args obs : List String) : Option DecOut :=
               let corr := match menc with
                 | some mb => if mb == s && o == s!"O({sizeOpt},-,-)" then none else some s!"model str={toHex mb} opt=O({sizeOpt},-,-)"
                 | none => some "model=err"
-              mk corr ((if streamIsEntries es s then [] else ["C03 event stream is not the concatenation of the entries", "C01 packed message does not carry exactly the given entries"]) ++
+              mk corr ((if streamIsEntries es s then [] else ["C03 event stream is not the concatenation of the entries", "C01 packed message does not carry exactly the given entries",
+                        "C02 the PackedForward bin is not the concatenation of the entries' msgpack encodings"]) ++
                        (if o == s!"O({sizeOpt},-,-)" then [] else ["C03 size option is not the number of entries"])) s!"{es.length}"
             | _, _ => none
           else
